@@ -301,7 +301,12 @@ bool AnalyserInternalEquation::variableOnLhsRhs(const AnalyserInternalVariablePt
 {
     switch (astChild->type()) {
     case AnalyserEquationAst::Type::CI:
-        return astChild->variable()->name() == variable->mVariable->name();
+        // Note: a state is computed through its derivative, so a plain
+        //       reference to it (e.g., the RHS of dx/dt = x) is not where it is
+        //       computed.
+
+        return (variable->mType != AnalyserInternalVariable::Type::STATE)
+               && (astChild->variable()->name() == variable->mVariable->name());
     case AnalyserEquationAst::Type::DIFF:
         return astChild->rightChild()->variable()->name() == variable->mVariable->name();
     default:
